@@ -501,6 +501,8 @@ pub struct DEntry {
     pub run_offs: Vec<u64>,
     /// slot index of the short entry inside its directory
     pub idx: usize,
+    /// the raw 32 bytes of the short entry
+    pub raw: [u8; 32],
 }
 
 impl DEntry {
@@ -601,6 +603,8 @@ pub struct DDir {
 pub struct Diag {
     pub code: &'static str,
     pub msg: String,
+    /// device offset of the first slot concerned (0 = not slot related)
+    pub off: u64,
 }
 
 #[derive(Clone, Debug)]
@@ -667,7 +671,7 @@ struct Ctx<'a, 'b> {
 impl Ctx<'_, '_> {
     fn diag(&mut self, code: &'static str, msg: String) {
         if self.diags.len() < 64 {
-            self.diags.push(Diag { code, msg });
+            self.diags.push(Diag { code, msg, off: 0 });
         }
     }
     fn claim(&mut self, chain: &[u32], id: u32, path: &str) {
@@ -732,11 +736,12 @@ pub fn decode_slots(slots: &[(u64, [u8; 32])], in_root: bool, path: &str, diags:
     let mut kinds = Vec::with_capacity(slots.len());
     let mut end_idx: Option<usize> = None;
     let mut pending: Option<Pending> = None;
-    let mut push_diag = |code: &'static str, msg: String, diags: &mut Vec<Diag>| {
+    let push_diag_at = |code: &'static str, msg: String, off: u64, diags: &mut Vec<Diag>| {
         if diags.len() < 64 {
-            diags.push(Diag { code, msg });
+            diags.push(Diag { code, msg, off });
         }
     };
+    let push_diag = |code: &'static str, msg: String, diags: &mut Vec<Diag>| push_diag_at(code, msg, 0, diags);
     for (i, (off, b)) in slots.iter().enumerate() {
         if let Some(e) = end_idx {
             // after the end marker everything must be zero-first-byte
@@ -754,18 +759,16 @@ pub fn decode_slots(slots: &[(u64, [u8; 32])], in_root: bool, path: &str, diags:
         }
         if b[0] == 0 {
             kinds.push(0);
-            if pending.is_some() {
-                push_diag("I7-orphan-lfn", format!("{}: long-name run dangling at end marker (slot {})", path, i), diags);
-                pending = None;
+            if let Some(p) = pending.take() {
+                push_diag_at("I7-orphan-lfn", format!("{}: long-name run dangling at end marker (slot {})", path, i), p.parts[0].3, diags);
             }
             end_idx = Some(i);
             continue;
         }
         if b[0] == 0xE5 {
             kinds.push(1);
-            if pending.is_some() {
-                push_diag("I7-orphan-lfn", format!("{}: long-name run interrupted by deleted slot {}", path, i), diags);
-                pending = None;
+            if let Some(p) = pending.take() {
+                push_diag_at("I7-orphan-lfn", format!("{}: long-name run interrupted by deleted slot {}", path, i), p.parts[0].3, diags);
             }
             continue;
         }
@@ -782,8 +785,8 @@ pub fn decode_slots(slots: &[(u64, [u8; 32])], in_root: bool, path: &str, diags:
             let soft = b[12] != 0 || b[26] != 0 || b[27] != 0 || attr != 0x0F || ord & 0xA0 != 0;
             let idx = ord & 0x1F;
             if ord & 0x40 != 0 {
-                if pending.is_some() {
-                    push_diag("I7-orphan-lfn", format!("{}: long-name run restarted at slot {}", path, i), diags);
+                if let Some(p) = &pending {
+                    push_diag_at("I7-orphan-lfn", format!("{}: long-name run restarted at slot {}", path, i), p.parts[0].3, diags);
                 }
                 let bad = idx == 0 || idx > 20;
                 if bad {
@@ -797,7 +800,7 @@ pub fn decode_slots(slots: &[(u64, [u8; 32])], in_root: bool, path: &str, diags:
             } else {
                 match pending.as_mut() {
                     None => {
-                        push_diag("I7-order", format!("{}: long-name slot {} (order {:#x}) without a start", path, i, ord), diags);
+                        push_diag_at("I7-order", format!("{}: long-name slot {} (order {:#x}) without a start", path, i, ord), *off, diags);
                         pending = Some(Pending {
                             parts: vec![(idx, chk, units, *off, soft)],
                             expect_next: idx.wrapping_sub(1),
@@ -845,10 +848,11 @@ pub fn decode_slots(slots: &[(u64, [u8; 32])], in_root: bool, path: &str, diags:
             sfn_off: *off,
             run_offs: Vec::new(),
             idx: i,
+            raw: *b,
         };
         if let Some(p) = pending.take() {
             if is_label {
-                push_diag("I7-orphan-lfn", format!("{}: long-name run followed by a volume label at slot {}", path, i), diags);
+                push_diag_at("I7-orphan-lfn", format!("{}: long-name run followed by a volume label at slot {}", path, i), p.parts[0].3, diags);
                 e.lfn_broken = true;
             } else {
                 let mut ok = !p.broken;
@@ -912,8 +916,8 @@ pub fn decode_slots(slots: &[(u64, [u8; 32])], in_root: bool, path: &str, diags:
         }
         entries.push(e);
     }
-    if pending.is_some() && end_idx.is_none() {
-        push_diag("I7-orphan-lfn", format!("{}: long-name run dangling at the end of the directory", path), diags);
+    if let (Some(p), None) = (&pending, end_idx) {
+        push_diag_at("I7-orphan-lfn", format!("{}: long-name run dangling at the end of the directory", path), p.parts[0].3, diags);
     }
     let end = match end_idx {
         Some(usize::MAX) => None,
